@@ -151,6 +151,19 @@ def _degenerate():
         d = wishbone.Decoder(addr_width=4, data_width=16, granularity=8, features={"err"})
         return Harness(d, flat_ports(d), dec=d)
 
+    def wb_dec_narrow():
+        # sparse windows NARROWER than one data word: 8-bit peripherals with 1 and 2 addresses behind a 32-bit decoder
+        d = wishbone.Decoder(addr_width=6, data_width=32, granularity=8)
+        subs = []
+        for i, aw in enumerate((1, 2, 0)):
+            if aw == 0:
+                continue
+            b = wishbone.Interface(addr_width=aw, data_width=8, granularity=8, path=(f"p{i}",))
+            b.memory_map = MemoryMap(addr_width=aw, data_width=8)
+            d.add(b, sparse=True)
+            subs.append(b)
+        return Harness(d, flat_ports(d, *subs), dec=d)
+
     def arb0():
         a = wishbone.Arbiter(addr_width=4, data_width=16, granularity=8)
         return Harness(a, flat_ports(a), arb=a)
@@ -182,7 +195,7 @@ def _degenerate():
         return Harness(br, flat_ports(br, bus), br=br, bus=bus)
 
     return {"mux-registers-wider-than-their-ranges": mux_wide_regs, "mux-sparse-40-bit-no-sharing": mux_sparse, "mux-empty": mux([]), "mux-write-only": mux(["w", "w"]), "mux-read-only": mux(["r"]), "csr-decoder-empty": csr_dec,
-            "wishbone-decoder-empty": wb_dec, "arbiter-no-initiators": arb0, "event-monitor-no-events": evmap0,
+            "wishbone-decoder-empty": wb_dec, "wishbone-decoder-sub-word-sparse-windows": wb_dec_narrow, "arbiter-no-initiators": arb0, "event-monitor-no-events": evmap0,
             "csr-event-monitor-no-events": evmon0, "gpio-one-pin": gpio1, "sram-two-words": sram1,
             "bridge-empty-map": bridge_empty, "wishbone-csr-bridge-minimal": wbcsr_min}
 
@@ -276,7 +289,7 @@ REFUSALS = ["csr-add-twice", "csr-add-overlap", "csr-add-name-clash", "csr-add-o
             "wb-add-twice", "wb-add-overlap", "wb-add-after-freeze", "map-add-resource-after-freeze",
             "map-window-into-itself-twice"]
 
-DEGENERATE = ["mux-registers-wider-than-their-ranges", "mux-sparse-40-bit-no-sharing", "mux-empty", "mux-write-only", "mux-read-only", "csr-decoder-empty", "wishbone-decoder-empty",
+DEGENERATE = ["mux-registers-wider-than-their-ranges", "mux-sparse-40-bit-no-sharing", "mux-empty", "mux-write-only", "mux-read-only", "csr-decoder-empty", "wishbone-decoder-empty", "wishbone-decoder-sub-word-sparse-windows",
               "arbiter-no-initiators", "event-monitor-no-events", "csr-event-monitor-no-events", "gpio-one-pin",
               "sram-two-words", "bridge-empty-map", "wishbone-csr-bridge-minimal"]
 
